@@ -24,7 +24,12 @@ except ImportError:
 from .data_structures import DataFile, FileFormat, Schema
 from .integrity import IntegrityChecker
 from .logging_config import get_logger
-from .storage_backend import LocalStorageBackend, S3StorageBackend, StorageBackend
+from .storage_backend import (
+    LocalStorageBackend,
+    S3StorageBackend,
+    StorageBackend,
+    canonical_path,
+)
 
 if TYPE_CHECKING:
     from .file_manager import FileManager
@@ -436,7 +441,7 @@ class DataFileManager:
             # location of a file it just wrote) is honoured ONLY if it lies
             # inside the table root; anything else is a traversal attempt or a
             # tampered manifest entry and must not be opened.
-            resolved = os.path.realpath(path)
+            resolved = canonical_path(path)
             try:
                 inside = os.path.commonpath([base_path, resolved]) == base_path
             except ValueError:
